@@ -87,6 +87,19 @@ def histories(run):
         for h in tlc_histories(PID, cfgfile, num, run.seed):
             add(h, users, mx, minc)
     run.coverage["tlc_behaviours"] = len(hs) - n0
+    # long-lived connections: one connection handed out 62..130 times (handles are recycled in slabs of 64), a handle of the
+    # very first holder released again while a late holder has the connection
+    for rounds in ([62, 63, 64, 65, 66, 127, 128, 129] if T else [63, 64, 65, 128]):
+        for hold_first in (False, True):
+            ops = [op("Acquire", "u1"), op("Release", "u1")]
+            for _ in range(rounds):
+                ops += [op("Acquire", "u2"), op("Release", "u2")]
+            ops += [op("Acquire", "u2"), op("StaleRelease", "u1", k=0), op("Acquire", "u1"), op("Use", "u2", "ok"), op("Release", "u2"),
+                    op("StaleRelease", "u2", k=0), op("Acquire", "u2")]
+            if hold_first:
+                ops = [op("Acquire", "u2"), op("Release", "u2")] + ops
+            hs.append({"id": "c11-%d" % (len(hs) + 1), "users": u2, "max": 1, "minc": 0, "lifeMs": 60000, "idleMs": 60000, "ops": ops})
+    run.coverage["long_lived_histories"] = True
     # random longer histories with time passing
     u3 = ["u1", "u2", "u3"]
     for i in range(3000 if T else 400):
@@ -178,15 +191,15 @@ def body(run):
     for l in lines:
         if '"ev":"Begin"' in l:
             b = json.loads(l)
-            cur = (b["max"], b["minc"])
+            cur = (b["max"], b["minc"], b.get("lifeMs", LIFE), b.get("idleMs", IDLE))
         groups.setdefault(cur, []).append(l)
     tmpl = open(os.path.join(V.SPEC, "Trace_Pool.cfg.tmpl")).read()
     total = {"lines": 0, "accepted": 0, "states": 0}
-    for (mx, minc), ls in sorted(groups.items()):
-        cfgname = "Trace_Pool_%d_%d.cfg" % (mx, minc)
-        cfgtext = tmpl.replace("@MAX@", str(mx)).replace("@MINC@", str(minc)).replace("@LIFE@", str(LIFE)).replace("@IDLE@", str(IDLE))
+    for (mx, minc, life, idle), ls in sorted(groups.items()):
+        cfgname = "Trace_Pool_%d_%d_%d_%d.cfg" % (mx, minc, life, idle)
+        cfgtext = tmpl.replace("@MAX@", str(mx)).replace("@MINC@", str(minc)).replace("@LIFE@", str(life)).replace("@IDLE@", str(idle))
         v = V.validate_traces(PID, "Trace_Pool", cfgname, ls, lambda l: '"ev":"Begin"' in l, timeout=2400, dfs=True,
-                              name="tv-%d-%d" % (mx, minc), extra_files={cfgname: cfgtext})
+                              name="tv-%d-%d-%d" % (mx, minc, life), extra_files={cfgname: cfgtext})
         V.log("  trace validation Max=%d MinConns=%d: %d lines, %d accepted, %d rejected shards, %.1fs" % (
             mx, minc, v.lines, v.accepted_lines, len(v.rejections), v.wall))
         total["lines"] += v.lines
